@@ -110,19 +110,61 @@ class AdapterModel:
             src = fl.operand_expr(t["args"][0])
             if src[0] == "call":
                 self.branches[bb] = (place_str(t["dest"]), src[3])
-        # guards: switch blocks on Lt(count, capacity)
+        # guards: boolean switches whose condition reads both the running counter and the capacity of the queue;
+        # the "pull edge" is the successor from which an upstream poll is reachable without re-evaluating the guard
         self.guards = {}
+        self.guard_info = {}
+        counter = self._counter_field()
+        slots_field = R.slot_enum[2]
         for sb in range(b.n):
-            for tgt, labs in fl.edge_labels(sb).items():
-                for lab in labs:
-                    if lab[0] == "bool" and lab[1][0] == "binop" and lab[1][1] in ("Lt", "Le", "Gt", "Ge", "Ne", "Eq"):
-                        l, r = lab[1][2], lab[1][3]
-                        ll = deep_leaves(ctx, b, l, 3)
-                        rl = deep_leaves(ctx, b, r, 3)
-                        names_l = {x[1] for x in ll if x[0] == "call"}
-                        names_r = {x[1] for x in rl if x[0] == "call"}
-                        if any(n and n.endswith("::capacity") for n in names_r) and any(n and (n.endswith("::len")) for n in names_l):
-                            self.guards.setdefault(sb, {})[tgt] = (lab[1][1], lab[2], l, r)
+            if b.is_cleanup(sb) or b.term(sb)["k"] != "switch":
+                continue
+            labs = fl.edge_labels(sb)
+            cond = None
+            edge_val = {}
+            for tgt, ls in labs.items():
+                for lab in ls:
+                    if lab[0] == "bool":
+                        cond = lab[1]
+                        edge_val[tgt] = lab[2]
+            if cond is None or len(edge_val) != 2:
+                continue
+            lv = deep_leaves(ctx, b, cond, 4)
+            reads_counter = counter is not None and ("field", counter) in lv
+            reads_cap = any(x[0] == "call" and re.search(r"core::slice::<impl \[T\]>::len$|::capacity$", x[1] or "") for x in lv) or \
+                ("field", "." + slots_field) in lv
+            if not (reads_counter and reads_cap):
+                continue
+            pull = None
+            for tgt in edge_val:
+                seen = {sb}
+                work = [tgt]
+                while work:
+                    x = work.pop()
+                    if x in seen:
+                        continue
+                    seen.add(x)
+                    if x in self.up_sites:
+                        pull = tgt
+                        break
+                    work.extend(b.normal_succ(x))
+                if pull is not None:
+                    break
+            if pull is None:
+                continue
+            table = None
+            why = ""
+            try:
+                import lib_arith
+                table = lib_arith.guard_table(ctx, b, cond, counter, slots_field)
+            except Exception as ex:  # Unknown / anything: fall back to the shape rule
+                why = "%s: %s" % (type(ex).__name__, ex)
+            shape = None
+            if cond[0] == "binop":
+                shape = (cond[1], cond[2], cond[3])
+            self.guard_info[sb] = {"cond": cond, "pull_tgt": pull, "pull_val": edge_val[pull], "table": table, "why_no_table": why, "shape": shape}
+            for tgt, v in edge_val.items():
+                self.guards.setdefault(sb, {})[tgt] = (tgt == pull)
         # tail tests: switch on Option::is_none / is_some of the stream field
         self.tails = {}
         for sb in range(b.n):
@@ -133,6 +175,35 @@ class AdapterModel:
                         if ".stream" in arg:
                             gone = lab[2] if lab[1][1].endswith("is_none") else (not lab[2])
                             self.tails.setdefault(sb, {})[tgt] = gone
+
+    def _counter_field(self):
+        """The slot map's occupied counter: the field INSERT increments by one."""
+        from lib_flow import self_field_stores, is_inc_of
+        ins = self.R.insert_fn
+        for (bb, i, fld, val, root, pe) in self_field_stores(ins, self.ctx.flow(ins)):
+            if is_inc_of(val, fld) == 1:
+                return fld
+        return None
+
+    def guard_semantics(self, ordered, safety_counts_parked=None):
+        """-> [(guard_bb, safety_ok, saturation_ok, detail)] from the finite-grid table of each guard; None entries when
+        the guard has no closed form."""
+        out = []
+        for sb, gi in sorted(self.guard_info.items()):
+            t = gi["table"]
+            if t is None:
+                out.append((sb, None, None, "no closed form (%s)" % gi["why_no_table"]))
+                continue
+            pv = gi["pull_val"]
+            sp = ordered if safety_counts_parked is None else safety_counts_parked
+            unsafe = [k for k, v in t.items() if v is not None and v == pv and not (k[0] + (k[1] if sp else 0) < k[2])]
+            unsat = [k for k, v in t.items() if v is not None and v != pv and not (k[0] + (k[1] if ordered else 0) >= k[2])]
+            undefined = [k for k, v in t.items() if v is None]
+            live = any(v == pv for v in t.values())
+            out.append((sb, not unsafe and live, not unsat and not undefined,
+                        "pull taken when guard=%s; counterexamples (running, parked, capacity): exceeds-limit %s, under-saturated %s, undefined %s" % (
+                            pv, unsafe[:2], unsat[:2], undefined[:2])))
+        return out
 
     def events(self, path, know):
         b = self.b
@@ -158,8 +229,7 @@ class AdapterModel:
             t = b.term(bb)
             nxt = path[i + 1] if i + 1 < n else None
             if bb in self.guards and nxt in self.guards[bb]:
-                op, val, l, r = self.guards[bb][nxt]
-                ev.append(("G", self._guard_true(op, val), bb))
+                ev.append(("G", self.guards[bb][nxt], bb))
             if bb in self.tails and nxt in self.tails[bb]:
                 ev.append(("T", self.tails[bb][nxt], bb))
             if t["k"] == "switch" and nxt is not None:
